@@ -4,6 +4,7 @@ published notifications are compared with the specification's expectation (codes
 library-level twin analysis of the same contents (positions and counts)."""
 import json
 import os
+import random
 import shutil
 
 import common as C
@@ -714,4 +715,280 @@ def check_c18(tier):
 
 
 def c18_dev(c, got, want):
+    return []
+
+
+# ------------------------------------------------------------------------------------------- C11
+CLS = {"a": "a", "dq": '"', "sq": "'", "lp": "(", "rp": ")", "colon": ":", "comma": ",", "sp": " ", "tab": "\t", "lf": "\n",
+       "cr": "\r", "crlf": "\r\n", "e2": "é", "c3": "中", "m4": "\U0001F600", "ideosp": "\u3000", "nbsp": "\u00a0",
+       "bom": "\ufeff", "nul": "\x00", "bslash": "\\", "hash": "#", "eq": "=", "star": "*", "at": "@", "dot": ".",
+       "lb": "[", "rb": "]"}
+HOST_CONFTEST = 'import pytest\n\n\n@pytest.fixture\ndef fx() -> int:\n    """Doc of fx."""\n    return 1\n\n\n@pytest.fixture(scope="session")\ndef other_fx(fx) -> str:\n    return "x"\n'
+
+
+def slot_text(slot, s):
+    """a Python (or config) document with the hostile string in the named slot"""
+    T = {
+        "doc_line_prefix": 'import pytest\n\n\n@pytest.fixture\ndef f_doc(fx):\n    """Doc.\n%s    more\n      deeper\n    """\n    return fx\n',
+        "after_param": "def test_x(fx%s):\n    pass\n",
+        "before_name": "def %stest_x(fx):\n    pass\n",
+        "after_name": "def test_x%s(fx):\n    pass\n",
+        "fixture_deco_arg": "import pytest\n\n\n@pytest.fixture(%s)\ndef f_arg(fx):\n    return fx\n",
+        "usefixtures_str": 'import pytest\n\n\n@pytest.mark.usefixtures("%s")\ndef test_x(fx):\n    pass\n',
+        "parametrize_names": 'import pytest\n\n\n@pytest.mark.parametrize("%s", [1], indirect=True)\ndef test_x(fx):\n    pass\n',
+        "body_line": "def test_x(fx):\n    %s\n    other_fx.call()\n",
+        "plugins_value": 'pytest_plugins = ["%s"]\n\n\ndef test_x(fx):\n    pass\n',
+        "import_module": "from .%s import *\n\n\ndef test_x(fx):\n    pass\n",
+        "return_annot": "import pytest\n\n\n@pytest.fixture\ndef f_ret(fx) -> %s:\n    return fx\n",
+        "after_colon": "def test_x(fx):%s\n    pass\n",
+        "default_value": "def test_x(fx, other_fx=%s):\n    pass\n",
+        "scope_value": 'import pytest\n\n\n@pytest.fixture(scope="%s")\ndef f_sc(fx):\n    return fx\n',
+        "name_value": 'import pytest\n\n\n@pytest.fixture(name="%s")\ndef f_nm(fx):\n    return fx\n',
+    }
+    return T[slot] % s if slot in T else None
+
+
+def slot_text2(slot, s):
+    """a second skeleton for slots whose hazard depends on the neighbouring lines"""
+    if slot == "doc_line_prefix":
+        return 'import pytest\n\n\n@pytest.fixture\ndef f_doc(fx):\n    """Doc.\n%smore\n deeper\n"""\n    return fx\n' % s
+    return None
+
+
+def lib_probe_ops(path, text):
+    ops = [{"op": "analyze", "path": path, "text": text}]
+    lines = text.split("\n")
+    for ln in range(min(len(lines) + 2, 14)):
+        L = len(lines[ln]) if ln < len(lines) else 0
+        for col in sorted({0, 1, 4, 11, 12, 13, max(L - 1, 0), L, L + 3}):
+            for op in ("goto", "goto_or_def", "name_at", "refs_at", "completion_ctx"):
+                ops.append({"op": op, "path": path, "line": ln, "col": col})
+        ops.append({"op": "param_insert", "path": path, "line1": ln + 1})
+        ops.append({"op": "containing_fn", "path": path, "line1": ln + 1})
+    ops += [{"op": "available", "path": path, "full": True}, {"op": "undeclared", "path": path}, {"op": "imported", "path": path},
+            {"op": "cycles"}, {"op": "scope_mismatch", "path": path}, {"op": "unused"}, {"op": "snapshot", "full": True},
+            {"op": "goto", "path": path, "line": 4294967295, "col": 4294967295},
+            {"op": "completion_ctx", "path": path, "line": 4294967294, "col": 0}]
+    return ops
+
+
+VALID = {
+    "ascii_long": "import pytest\n\n\ndef test_long_function_name_here(fx, other_fx):\n    value = fx + 1\n    assert other_fx\n",
+    "params_many": "def test_p(fx, other_fx, a, b, c):\n    pass\n\n\ndef test_q(other_fx):\n    pass\n",
+    "usefix_string": 'import pytest\n\n\n@pytest.mark.usefixtures("fx", "other_fx")\ndef test_u():\n    pass\n',
+    "class_method": "class TestK:\n    def test_m(self, fx, other_fx):\n        return fx\n",
+    "undeclared_use": "def test_u():\n    print(fx)\n    other_fx.call()\n",
+}
+BROKEN = {
+    "shorter_lines": "x\ny\nz(\n",
+    "multibyte_at_offsets": "dé€f tést_é(é€中\U0001F600, é€中\U0001F600é€中\U0001F600é€中\U0001F600):\n    é€中\U0001F600é€中\U0001F600 = (\n" * 3,
+    "empty": "",
+    "only_newlines": "\n\n\n\n\n\n\n(",
+    "one_long_line": "def test_long_function_name_here(" + "é" * 200,
+    "bom_first": "\ufeffdef test_p(fx, other_fx, a, b, c:\n\u3000\u3000pass\n",
+    "crlf_mixed": "def test_p(fx,\r other_fx\r\n, a\n\r, b:\r\n",
+    "fewer_lines": "def (",
+    "tabs": "\tdef\ttest_p(\tfx,\tother_fx\n\t\t(\n",
+}
+
+
+def check_c11(tier):
+    V = C.Verdict("C11", tier, "exploration")
+    C.build_harness()
+    C.build_server()
+    m_slots = C.run_tlc("Hostile", "Hostile_slots.cfg" if tier == "quick" else "Hostile_slots_thorough.cfg", workers=8, timeout=7200)
+    m_stale = C.run_tlc("Hostile", "Hostile_stale.cfg", workers=4, timeout=3600)
+    for m in (m_slots, m_stale):
+        if not m["ok"]:
+            raise C.ToolError("TLC on Hostile failed: %s" % m["errors"])
+    rnd = random.Random(C.seed())
+    # ---- (1) hostile strings in sensitive slots: every library entry point under catch_unwind
+    slot_cases = list(C.tlc_cases(m_slots))
+    py_cases = [c for c in slot_cases if slot_text(c["slot"], "") is not None]
+    if tier == "thorough" and len(py_cases) > 60000:
+        rnd.shuffle(py_cases)
+        py_cases = py_cases[:60000]
+    hcases = []
+    for n, c in enumerate(py_cases):
+        s = "".join(CLS[k] for k in c["str"])
+        text = slot_text(c["slot"], s)
+        ops = [{"op": "analyze", "path": "/vws11/conftest.py", "text": HOST_CONFTEST}] + lib_probe_ops("/vws11/test_h.py", text)
+        t2 = slot_text2(c["slot"], s)
+        if t2 is not None:
+            ops += [{"op": "analyze", "path": "/vws11/test_h2.py", "text": t2}, {"op": "available", "path": "/vws11/test_h2.py", "full": True}]
+        hcases.append({"id": n, "ops": ops})
+    for c, res in zip(py_cases, C.run_harness(hcases)):
+        V.count()
+        V.nontriv(json.dumps([c["slot"], c["str"]]))
+        bad = [(i, r) for i, r in enumerate(res["res"]) if isinstance(r, dict) and "panic" in r]
+        if bad:
+            i, r = bad[0]
+            s = "".join(CLS[k] for k in c["str"])
+            V.classify(c11_dev(r), {"slot": c["slot"], "classes": c["str"], "string": s, "panic": r,
+                                    "op": hcases[py_cases.index(c)]["ops"][i] if False else None,
+                                    "text": slot_text(c["slot"], s)},
+                       "a library entry point panicked on a hostile input")
+    # ---- (2) stale-position histories and config / metadata slots through the real binary
+    stale = list(C.tlc_cases(m_stale))
+    cfg_cases = [c for c in slot_cases if c["slot"] in ("pyproject_codes", "pyproject_exclude", "entry_point_name",
+                                                         "entry_point_target", "pth_line")]
+    rnd.shuffle(cfg_cases)
+    cfg_cases = cfg_cases[:120 if tier == "quick" else 1500]
+    base = os.path.join(C.BUILD, "ws", "c11-%d" % os.getpid())
+    shutil.rmtree(base, ignore_errors=True)
+
+    def all_requests(srv, path, positions):
+        n = 0
+        for (ln, col) in positions:
+            for meth in ("textDocument/definition", "textDocument/hover", "textDocument/implementation",
+                         "textDocument/prepareCallHierarchy", "textDocument/completion"):
+                srv.pos_request(meth, path, ln, col)
+                n += 1
+            srv.pos_request("textDocument/references", path, ln, col, {"context": {"includeDeclaration": True}})
+            n += 1
+        for meth in ("textDocument/documentSymbol", "textDocument/codeLens"):
+            srv.doc_request(meth, path)
+            n += 1
+        srv.doc_request("textDocument/inlayHint", path, {"range": {"start": {"line": 0, "character": 0},
+                                                                  "end": {"line": 100000, "character": 0}}})
+        srv.request("workspace/symbol", {"query": "fx"})
+        item = {"name": "fx", "kind": 12, "uri": lsp.path_to_uri(os.path.join(os.path.dirname(path), "conftest.py")),
+                "range": {"start": {"line": 4, "character": 0}, "end": {"line": 4, "character": 0}},
+                "selectionRange": {"start": {"line": 4, "character": 4}, "end": {"line": 4, "character": 6}}}
+        srv.request("callHierarchy/incomingCalls", {"item": item})
+        srv.request("callHierarchy/outgoingCalls", {"item": dict(item, name="other_fx")})
+        return n + 4
+
+    def stale_session(job):
+        n, c = job
+        root = os.path.join(base, "st%d" % n)
+        os.makedirs(root, exist_ok=True)
+        cpath, tpath = os.path.join(root, "conftest.py"), os.path.join(root, "test_h.py")
+        with open(cpath, "w") as fh:
+            fh.write(HOST_CONFTEST)
+        vtext, btext = VALID[c["v"]], BROKEN[c["b"]]
+        srv = lsp.Server(timeout=30)
+        try:
+            srv.initialize(root)
+            diags = srv.did_open(tpath, vtext)
+            # positions recorded for V: every usage / definition token start and end, from the text itself
+            positions = set()
+            for ln, line in enumerate(vtext.split("\n")):
+                for tok in ("fx", "other_fx", "test_", "def"):
+                    k = line.find(tok)
+                    while k >= 0:
+                        positions.add((ln, k))
+                        positions.add((ln, k + len(tok)))
+                        k = line.find(tok, k + 1)
+                positions.add((ln, len(line) + 5))
+            positions |= {(len(vtext.split("\n")) + 3, 0), (4294967295, 4294967295), (0, 0), (0, 4294967295)}
+            srv.did_change(tpath, btext, version=2)
+            n_req = all_requests(srv, tpath, sorted(positions))
+            # stale diagnostics handed back for a quick fix
+            for d in diags[:3]:
+                srv.request("textDocument/codeAction", {"textDocument": {"uri": lsp.path_to_uri(tpath)}, "range": d["range"],
+                                                        "context": {"diagnostics": [d]}})
+            # and back to the valid text: the server keeps serving
+            srv.did_change(tpath, vtext, version=3)
+            r = srv.pos_request("textDocument/definition", tpath, 0, 0)
+            return {"requests": n_req, "alive": srv.alive()}
+        except (lsp.ServerDied, lsp.Timeout) as e:
+            return {"error": str(e), "exit": srv.proc.poll()}
+        finally:
+            srv.close()
+            shutil.rmtree(root, ignore_errors=True)
+
+    for c, r in zip(stale, lsp.run_parallel(list(enumerate(stale)), stale_session, workers=8)):
+        V.count()
+        V.nontriv(json.dumps(["stale", c["v"], c["b"]]))
+        if r is None or "__exception__" in r:
+            raise C.ToolError("LSP session failed: %r" % (r,))
+        if "error" in r or not r.get("alive"):
+            V.classify(c11_stale_dev(c), {"valid_version": VALID[c["v"]], "then_unparsable": BROKEN[c["b"]], "result": r},
+                       "the server died or stopped answering after a valid version was replaced by an unparsable one")
+
+    def cfg_session(job):
+        n, c = job
+        s = "".join(CLS[k] for k in c["str"])
+        root = os.path.join(base, "cf%d" % n)
+        sp = os.path.join(root, ".venv", "lib", "python3.11", "site-packages")
+        os.makedirs(os.path.join(sp, "tp"), exist_ok=True)
+        os.makedirs(os.path.join(sp, "tp-1.0.dist-info"), exist_ok=True)
+        ep = "[pytest11]\ntp = tp.plugin\n"
+        pp = None
+        if c["slot"] == "entry_point_name":
+            ep = "[pytest11]\n%s = tp.plugin\ntp = tp.plugin\n" % s
+        elif c["slot"] == "entry_point_target":
+            ep = "[pytest11]\nbad = %s\ntp = tp.plugin\n" % s
+        elif c["slot"] == "pth_line":
+            with open(os.path.join(sp, "__editable__.tp-1.0.pth"), "w", encoding="utf-8", errors="surrogatepass") as fh:
+                fh.write(s + "\n")
+            with open(os.path.join(sp, "tp-1.0.dist-info", "direct_url.json"), "w") as fh:
+                fh.write('{"url": "file:///x", "dir_info": {"editable": true}}')
+        elif c["slot"] == "pyproject_codes":
+            pp = '[tool.pytest-language-server]\ndisabled_diagnostics = ["%s", "scope-mismatch"]\n' % s
+        elif c["slot"] == "pyproject_exclude":
+            pp = '[tool.pytest-language-server]\nexclude = ["%s"]\ndisabled_diagnostics = ["scope-mismatch"]\n' % s
+        with open(os.path.join(sp, "tp-1.0.dist-info", "entry_points.txt"), "w", encoding="utf-8") as fh:
+            fh.write(ep)
+        open(os.path.join(sp, "tp", "__init__.py"), "w").close()
+        with open(os.path.join(sp, "tp", "plugin.py"), "w") as fh:
+            fh.write(TP_18)
+        if pp is not None:
+            with open(os.path.join(root, "pyproject.toml"), "w", encoding="utf-8") as fh:
+                fh.write(pp)
+        with open(os.path.join(root, "conftest.py"), "w") as fh:
+            fh.write(HOST_CONFTEST)
+        with open(os.path.join(root, "test_ok.py"), "w") as fh:
+            fh.write("def test_ok(fx, tp_fx):\n    pass\n")
+        srv = lsp.Server(timeout=30)
+        try:
+            srv.initialize(root)
+            scan_failed = any("Workspace scan failed" in m for m in srv.logs)
+            d = srv.pos_request("textDocument/definition", os.path.join(root, "test_ok.py"), 0, 12)
+            d2 = srv.pos_request("textDocument/definition", os.path.join(root, "test_ok.py"), 0, 16)
+            rc, so, se = lsp.run_cli(["fixtures", "list", root])
+            return {"scan_failed": scan_failed, "resolved_fx": bool(d), "resolved_tp": bool(d2), "cli_rc": rc,
+                    "cli_panic": "panicked" in se, "alive": srv.alive()}
+        except (lsp.ServerDied, lsp.Timeout) as e:
+            return {"error": str(e)}
+        finally:
+            srv.close()
+            shutil.rmtree(root, ignore_errors=True)
+
+    for c, r in zip(cfg_cases, lsp.run_parallel(list(enumerate(cfg_cases)), cfg_session, workers=8)):
+        V.count()
+        V.nontriv(json.dumps([c["slot"], c["str"]]))
+        if r is None or "__exception__" in r:
+            raise C.ToolError("LSP session failed: %r" % (r,))
+        ex = {"slot": c["slot"], "classes": c["str"], "string": "".join(CLS[k] for k in c["str"]), "result": r}
+        if "error" in r or not r.get("alive") or r.get("scan_failed") or r.get("cli_panic") or r.get("cli_rc") not in (0,):
+            V.violation(ex, "malformed configuration / plugin metadata crashed the server, the scan or the CLI")
+        elif not r.get("resolved_fx") or not r.get("resolved_tp"):
+            V.violation(ex, "one malformed configuration / metadata entry disabled the rest of the workspace")
+    shutil.rmtree(base, ignore_errors=True)
+    V.sample({"slot": py_cases[0]["slot"], "classes": py_cases[0]["str"], "text": slot_text(py_cases[0]["slot"], "".join(CLS[k] for k in py_cases[0]["str"]))})
+    V.sample({"stale": stale[0]})
+    return V.finish(
+        coverage_extra={"tlc_states": m_slots["distinct"] + m_stale["distinct"], "library_cases": len(py_cases),
+                        "stale_sessions": len(stale), "config_sessions": len(cfg_cases)},
+        rule="(1) every string of <= 2 (quick) / 3 (thorough) character classes out of 27 (quotes, parens, colon, comma, blank, tab, "
+             "LF, CR, CRLF, 2-/3-/4-byte characters, U+3000, U+00A0, BOM, NUL, backslash, ...) in each of 15 sensitive slots of a "
+             "Python document; all library entry points at ~100 positions per document under catch_unwind; (2) 45 stale-position "
+             "histories (5 valid versions x 9 unparsable successors) through the real binary with all 13 request kinds at every "
+             "position recorded for the valid version, past the end and at u32 extremes; (3) hostile strings in pyproject.toml "
+             "values, entry_points.txt and .pth files: server, scan and CLI must survive and still resolve the healthy files; "
+             "non-trivial = distinct (slot, string) / history",
+        assumptions=["the specification (Hostile.tla) enumerates inputs and states the protocol obligations; it cannot predict a panic",
+                     "'very large' inputs are covered by a handful of sizes only"])
+
+
+def c11_dev(panic):
+    at = panic.get("at", "")
+    if "string_utils.rs" in at and ("byte index" in panic.get("panic", "") or "char boundary" in panic.get("panic", "")):
+        return ["docstring_dedent_byte_slice"]
+    return []
+
+
+def c11_stale_dev(c):
     return []
